@@ -75,6 +75,23 @@ def hostile_docs():
             d.segs[ses[1]][2] = 'CONTROLNUMBERTOOLONG'
             d.segs.insert(ses[1], ['ZZZ', 'A']); d.nodes.insert(ses[1], None); d.lpaths.insert(ses[1], d.lpaths[ses[1] - 1])
             yield ('hostile:%s:every-set-level-code' % e[4], d.text(eol='\n'), {})
+        # (e) a functional-acknowledgement group (GS01 = FA, holding a 997 / 999 set) in front of an ordinary group of the same
+        #     interchange: whatever the visitors do for the FA group, the acknowledgement of the file stays one well-formed interchange
+        ack_map = '999.5010.xml' if e[0] == '00501' else '997.4010.xml'
+        fa = [x for x in corpus.one_entry_per_map() if x[4] == ack_map]
+        d2 = corpus.build_ok(e, {'sets': 2})
+        d1 = corpus.build_ok(fa[0], {}) if fa else None
+        if d1 is not None and d2 is not None:
+            g1 = [copy.deepcopy(s_) for s_ in d1.segs if s_[0] not in ('ISA', 'IEA')]
+            for order in ('fa-first', 'fa-last'):
+                segs = [copy.deepcopy(s_) for s_ in d2.segs]
+                k = 1 if order == 'fa-first' else len(segs) - 1
+                for s_ in g1:
+                    if s_[0] == 'GS': s_[6] = '77'
+                    if s_[0] == 'GE': s_[2] = '77'
+                segs[k:k] = g1
+                segs[-1][1] = '2'
+                yield ('hostile:%s:%s' % (e[4], order), '\n'.join('*'.join(gen.Doc_flat(s_)) + '~' for s_ in segs) + '\n', {})
         # (c) control numbers as fixed-width systems write them: blank padded / zero filled, header and trailer alike
         #     (the source envelope is consistent; the acknowledgement's own envelope must be too)
         for name, fn in (('pad-right', lambda v: v + '   '), ('pad-left', lambda v: '  ' + v), ('zero-fill', lambda v: '000' + v), ('pad-both', lambda v: ' ' + v + ' ')):
